@@ -2,7 +2,7 @@
 //! The fault target fails its k-th call (k symbolic) with error value k and flags any later call.
 //@unit c04_errors
 //@crate main
-//@needs arb probe c06_styled
+//@needs arb probe c06_styled c14_c15_text
 
 //@append src/primitives/rectangle/styled.rs
 #[cfg(kani)]
@@ -255,6 +255,57 @@ mod verif_c04i {
         };
         assert!(f.0.calls == 1 && r == if fail { Err(1) } else { Ok(()) });
         kani::cover!(r.is_err());
+    }
+}
+//@end
+
+//@append src/text/text.rs
+#[cfg(kani)]
+#[allow(missing_docs, trivial_casts, trivial_numeric_casts, unused_qualifications, dead_code, unused)]
+mod verif_c04t {
+    use super::*;
+    use crate::{
+        mono_font::{verif_c14f::{any_parts, metrics_only_font}, MonoTextStyle},
+        pixelcolor::Gray8,
+        text::{DecorationColor, LineHeight},
+        verif_probe::{any_point, any_rect, everything, ProbeNative, ProbeState},
+    };
+
+    /// Text (bounded): per-character spacing fills, decorations and the per-line loop all propagate the
+    /// k-th target error with `?`: Err(k) is returned, nothing is called afterwards, the calls before it
+    /// are those of the fault-free run. (A font with an empty atlas: glyph images make no target call.)
+    //@harness prop=C04 kind=bounded tier=quick class=P bound="text \"ab\\nc\" (two lines), symbolic metrics, background + underline + strikethrough; all k <= 8" timeout=900 fns=src/text/text.rs::Text::draw;src/mono_font/mono_text_style.rs::MonoTextStyle::draw_string;src/mono_font/mono_text_style.rs::MonoTextStyle::draw_string_binary;src/mono_font/mono_text_style.rs::MonoTextStyle::draw_decorations
+    #[kani::proof]
+    #[kani::unwind(10)]
+    fn c04_text_fault_at_k() {
+        let p = any_parts(16);
+        kani::assume(p.cw >= 1 && p.ch >= 1 && p.spacing >= 1);
+        let mapping = |_c: char| 0usize;
+        let f = metrics_only_font(&p, &mapping);
+        let mut style = MonoTextStyle::new(&f, Gray8::new(200));
+        style.background_color = if kani::any() { Some(Gray8::new(50)) } else { None };
+        style.underline_color = DecorationColor::Custom(Gray8::new(100));
+        style.strikethrough_color = if kani::any() { DecorationColor::TextColor } else { DecorationColor::None };
+        let pos = any_point(256);
+        let ts = TextStyleBuilder::new().line_height(LineHeight::Pixels(20)).build();
+        let text = Text::with_text_style("ab\nc", pos, style, ts);
+        let k: u32 = kani::any();
+        kani::assume(k >= 1 && k <= 8);
+        let q = any_point(1024);
+        let mut ok = ProbeNative::<Gray8>(ProbeState::new(q, any_rect(64), everything()));
+        ok.0.log_upto = k;
+        assert!(text.draw(&mut ok).is_ok());
+        let n = ok.0.calls;
+        let mut fl = ProbeNative::<Gray8>(ProbeState::new(q, any_rect(64), everything()));
+        fl.0.fail_at = k;
+        let r = text.draw(&mut fl);
+        if k <= n {
+            assert!(r == Err(k) && fl.0.calls == k && !fl.0.called_after_fail && fl.0.log == ok.0.log);
+        } else {
+            assert!(r.is_ok() && fl.0.calls == n);
+        }
+        kani::cover!(k <= n && k >= 4);
+        kani::cover!(n >= 5);
     }
 }
 //@end
